@@ -1,7 +1,9 @@
 #!/venv/bin/python
-"""Run the repository's baseline suite with the guard OFF and compare with /root/.vp/BASELINE.json (stable_pass)."""
+"""Run the repository's baseline suite with the guard OFF and compare with /root/.vp/BASELINE.json (stable_pass).
+usage: baseline_check.py [tree]   (default /repo; a scratch worktree when confirming a seeded change)"""
 import ast, json, os, subprocess, sys, tempfile
 import xml.etree.ElementTree as ET
+TREE = sys.argv[1] if len(sys.argv) > 1 else "/repo"
 b = json.load(open("/root/.vp/BASELINE.json"))
 stable = b["stable_pass"]
 if isinstance(stable, str):
@@ -9,9 +11,9 @@ if isinstance(stable, str):
 stable = set(stable)
 with tempfile.TemporaryDirectory(dir="/var/tmp") as d:
     x = os.path.join(d, "j.xml")
-    env = dict(os.environ); env.pop("SHAMPOO_VERIF", None)
+    env = dict(os.environ); env.pop("SHAMPOO_VERIF", None); env.pop("PYTHONPATH", None)
     subprocess.run(["/venv/bin/python", "-m", "pytest", "-ra", "-q", "-p", "no:cacheprovider", "--timeout=900",
-                    "--continue-on-collection-errors", f"--junitxml={x}"], cwd="/repo", env=env, capture_output=True)
+                    "--continue-on-collection-errors", f"--junitxml={x}"], cwd=TREE, env=env, capture_output=True)
     root = ET.parse(x).getroot()
 passed = set()
 for tc in root.iter("testcase"):
